@@ -33,6 +33,9 @@ CHECKS = {
  "C07": ("model_checking", "The explorers of C01 C02 C04 C06 C08 C09 C10 C13 re-run unchanged in an ASan+UBSan build of the C runtime, generated parsers and scanners (ts_assert live) with a counting allocator (balance must return to the baseline after every explorer, including cancelled-and-abandoned parses); every API call history up to depth 3 (thorough 4) over a 22-operation alphabet replayed from scratch with allocation balance; Query::new on every string of <=4 (thorough 5) query-syntax atoms, executing accepted queries.",
          "Only the C side is instrumented. Uninitialised reads: separate valgrind pass (thorough). Sanitizer reports abort the worker and are reported with the recorded case.",
          "explicit-state exploration of API call histories under sanitizers with allocation-balance monitors", "DESIGN.md §2 C07"),
+ "C03": ("model_checking", "Bounded-exhaustive enumeration of grammar families (G1: 6400 structured CFGs with repeats/optionals/fields/aliases/hidden/inlined rules/extras; G2: 1728 operator-precedence tables; G3: GLR grammars with declared conflicts and dynamic precedence) crossed with every token string up to a length bound; each accepted grammar is generated and compiled by the current generator and its parser compared with an independent derivation enumerator (membership + expected visible tree) and a Pratt parser.",
+         "The reference deriver/Pratt parser are the specification. Grammars the generator rejects are skipped and counted. G1 grammars that are ambiguous yet accepted are counted, and only 'tree is one of the derivations' is asserted for them.",
+         "bounded-exhaustive enumeration of (grammar, string) with reference derivation enumerator and Pratt parser", "DESIGN.md §2 C03"),
 }
 REASON_WIP = "check not built yet (work in progress; see DESIGN.md build order)"
 def main():
